@@ -160,7 +160,8 @@ namespace occa {
 
     for (udim_t i = 0; i < bytes; ++i) {
       for (int j = 0; j < 8; ++j) {
-        h[j] = (h[j] * p[j]) ^ c[i];
+        // Multiply in unsigned arithmetic: the product wraps by design (same values, no signed overflow)
+        h[j] = (int) ((((unsigned int) h[j]) * ((unsigned int) p[j])) ^ ((unsigned int) c[i]));
       }
     }
     hash.initialized = true;
